@@ -20,3 +20,12 @@ Proof.
   induction n as [|n IH]; intros l x H; [destruct H|].
   destruct l as [|y l]; [destruct H|]. cbn in H. destruct H as [->|H]; [left; reflexivity|right; auto].
 Qed.
+
+Lemma NoDup_app_one {A} (l : list A) x : NoDup l -> ~ In x l -> NoDup (l ++ [x]).
+Proof.
+  induction l as [|y l IH]; intros ND H; cbn.
+  - constructor; [intros []|constructor].
+  - inversion ND as [|? ? Hy ND']; subst. constructor.
+    + intros Hin. apply in_app_or in Hin as [Hin|[<-|[]]]; [contradiction|]. apply H. left; reflexivity.
+    + apply IH; auto. intros Hx. apply H. right; exact Hx.
+Qed.
